@@ -65,6 +65,12 @@ def enumerated(tier, seed):
                     yield dict(steps=[dict(tool=tool, switch=switch, append=append, files=True)], pre=pre, k=5)
                     yield dict(steps=[dict(tool="asm", switch=switch, append=True), dict(tool=tool, switch=switch, append=append, files=True),
                                       dict(tool=tool, switch=switch, append=True, files=True)], pre=pre, k=982)
+    # file_util with a selection that matches nothing, onto every kind of existing target
+    for tool in ("fu_cas", "fu_dsk"):
+        for switch in ("--to_cas", "--to_dsk"):
+            for append in (False, True):
+                for pre in ("cas", "dsk", "rawbin", "empty", "blankdsk"):
+                    yield dict(steps=[dict(tool=tool, switch=switch, append=append, files="nomatch")], pre=pre, k=5)
     # one invocation, two output switches naming the same new path: the second save meets the image the first has just
     # written, which is of another kind
     for tool in TOOLS:
@@ -81,7 +87,7 @@ def enumerated(tier, seed):
 
 
 _step = st.fixed_dictionaries(dict(tool=st.sampled_from(TOOLS), switch=st.sampled_from(SWITCHES), append=st.booleans(),
-                                   files=st.sampled_from([False, False, True])))
+                                   files=st.sampled_from([False, False, True, "nomatch"])))
 _cell = st.fixed_dictionaries(dict(steps=st.lists(_step, min_size=1, max_size=1), pre=st.sampled_from(PRES[:-2] + PRES[-1:]), k=st.integers(0, 10 ** 6)))
 _seq = st.fixed_dictionaries(dict(steps=st.lists(_step, min_size=2, max_size=4), pre=st.sampled_from(["absent", "absent", "cas", "dsk", "rawbin"]),
                                   k=st.integers(0, 10 ** 6)))
@@ -252,13 +258,19 @@ def execute(case):
                 os.utime(target, ns=(10 ** 18, 10 ** 18))
             want_kind = {"--to_bin": "bin", "--to_cas": "cas", "--to_dsk": "dsk"}[step["switch"]]
             odd_name = step.get("name")
+            nomatch = False
             if step["tool"] == "asm":
                 argv = ["noname.asm" if odd_name else "prog.asm", "--name", odd_name or "PROG", step["switch"], spelled]
                 script = "assembler.py"
                 new_data, new_name = prog.image, odd_name or "PROG"
             else:
                 argv = ["source.cas" if step["tool"] == "fu_cas" else "source.dsk", step["switch"], spelled]
-                if step.get("files") and step["switch"] != "--to_bin":
+                nomatch = step.get("files") == "nomatch" and step["switch"] != "--to_bin"
+                if nomatch:
+                    # a selection that matches nothing: nothing to save, and nothing that could justify touching the target
+                    argv += ["--files", "NOSUCHFL"]
+                    labels.append("selection_matches_nothing")
+                elif step.get("files") and step["switch"] != "--to_bin":
                     # a selection from a source of two files: what is already on the target is no business of --files
                     argv = [argv[0].replace("source.", "source2."), step["switch"], spelled, "--files", "srcfile"]
                     labels.append("with_files_selection")
@@ -318,6 +330,10 @@ def execute(case):
                     return viol("{}: target left alone but the user is not told why; stdout={!r}".format(where, out[-200:]),
                                 fid="C10:no-explanation", labels=sorted(set(labels)))
                 continue
+            if nomatch and kind in ("absent", "empty"):
+                continue            # what a save of nothing onto a new or empty path leaves behind is not specified
+            if nomatch:
+                changed = after != before       # rewriting the same bytes is no modification
             if verdict == "permitted":
                 labels.append("permitted")
                 if not changed and not odd_name and spell != "tilde" and "refus" not in (res.stdout + res.stderr).lower() and res.status == 0 \
@@ -343,10 +359,12 @@ def execute(case):
                             fid="C10:incomplete-image", labels=sorted(set(labels)))
             prev = held if kind == want_kind and verdict == "permitted" else []
             names = [filegen.norm_name(f.name if hasattr(f, "name") else f["name"]) for f in aheld]
-            want_names = [filegen.norm_name(f.name if hasattr(f, "name") else f["name"]) for f in prev] + [filegen.norm_name(new_name)]
+            want_names = [filegen.norm_name(f.name if hasattr(f, "name") else f["name"]) for f in prev] + ([] if nomatch else [filegen.norm_name(new_name)])
             if names != want_names:
                 return viol("{}: image holds {} expected {}".format(where, names, want_names), fid="C10:image-content",
                             labels=sorted(set(labels)))
+            if nomatch:
+                continue
             last = aheld[-1]
             ldata = bytes(last.data) if hasattr(last, "data") else bytes(last["data"])
             if ldata != bytes(new_data):
